@@ -125,3 +125,40 @@ if __name__ == "__main__":
         for r in s.get("results", []):
             if r["status"] not in ("detected",):
                 print("   ", r)
+
+
+def _run_variant(args):
+    """one behaviour-preserving rewrite of the whole package (tools/refactor_variants.py): the check must stay silent on it"""
+    prop, root, name = args
+    import importlib.util
+    verif = os.path.dirname(os.path.dirname(os.path.abspath(__file__)))
+    spec = importlib.util.spec_from_file_location("refactor_variants", os.path.join(verif, "tools", "refactor_variants.py"))
+    rv = importlib.util.module_from_spec(spec)
+    spec.loader.exec_module(rv)
+    d = tempfile.mkdtemp(prefix="bnpsa_rfv_", dir=_scratch_root())
+    try:
+        rv.make(name, d, repo=root)
+        from .report import Ctx
+        mod = importlib.import_module(f"bnpsa.rules.{prop.lower()}")
+        buf = io.StringIO()
+        with contextlib.redirect_stdout(buf):
+            ctx = Ctx(prop, "quick", d, 0, write=False)
+            ctx.run_rules(mod.RULES)
+        known = {k.get("key") for k in ctx.known}
+        fired = sorted({v["rule"] for v in ctx.violations if v.get("key") not in known})
+        return {"variant": name, "status": "silent" if not fired and not ctx.analysis_errors else "ALARM", "fired": fired, "analysis_errors": [e[:160] for e in ctx.analysis_errors[:3]]}
+    except Exception as e:
+        return {"variant": name, "status": "error", "why": f"{type(e).__name__}: {e}"}
+    finally:
+        shutil.rmtree(d, ignore_errors=True)
+
+
+def run_refactor_variants(prop: str, root: str, jobs: int = 9) -> dict:
+    names = ["identity", "nodoc", "rename", "compvars", "tempret", "elimtemps", "ifflip", "elseify", "guardswap"]
+    with ProcessPoolExecutor(max_workers=jobs) as ex:
+        res = list(ex.map(_run_variant, [(prop, root, n) for n in names]))
+    for r in res:
+        if r["status"] != "silent":
+            print(f"REFACTOR-ALARM property={prop} variant={r['variant']} {r.get('fired') or r.get('why') or r.get('analysis_errors')}")
+    return {"variants": len(res), "silent": sum(1 for r in res if r["status"] == "silent"), "results": res,
+            "note": "each variant is a behaviour-preserving rewrite of every module (validated once against the pinned suite); the check must not alarm on any"}
